@@ -70,6 +70,17 @@ def check_dbus(argstr, region):
     wanted_ifaces = [unq(amap["interface"])] if "interface" in amap else [name + "{,.*}"]
     if "interface+" in amap:
         wanted_ifaces.append(unq(amap["interface+"]))
+    # a directive documents every argument written on its line: a key given twice with two values asks for both
+    multi = {}
+    for t in lst[1:]:
+        k, _, v = t.partition("=")
+        multi.setdefault(k, []).append(unq(v))
+    for k, vs in sorted(multi.items()):
+        if len(set(vs)) > 1:
+            if k in ("interface", "interface+"):
+                wanted_ifaces += [v for v in vs if v not in wanted_ifaces]
+            else:
+                bad.append(("argument-dropped", "%s= is given %d times (%s): one expansion cannot honour them all" % (k, len(vs), ", ".join(vs))))
     text = "\n".join(region)
     sc = scan.scan("profile x {\n" + text + "\n}\n")
     stmts = [s for s in sc.stmts]
